@@ -222,7 +222,7 @@ def gen_boundary_case(rng, force_mode=None):
     return lines
 
 
-FILE_KINDS = ["sig", "zip", "dir", "multi", "pl", "mf", "sbt", "sql", "lca"]
+FILE_KINDS = ["sig", "zip", "zipnm", "dir", "multi", "pl", "mf", "sbt", "sql", "lca"]
 
 
 def gen_cli_case(rng, i):
@@ -231,14 +231,18 @@ def gen_cli_case(rng, i):
     abundance queries, -o, --save-matches, --output-unassigned, --save-prefetch, --create-empty-results,
     --linear / --no-linear, several collections of different kinds at once"""
     mode = ["cli", "ondemand"][i % 2]
-    fl = ["equal", "boundary", "finer", "boundary", "equal", "coarser"][i % 6]
+    fl = ["equal", "boundary", "finer", "boundary", "finer", "coarser", "mixed", "equal"][i % 8]
     for _ in range(20):
         case = gen_boundary_case(rng, force_mode=mode) if fl == "boundary" else gen_case(rng, fl, force_mode=mode)
         sigs, dbs = parse_case(case)
         if any(dbs.values()):
             break
+    thr = int(next(l for l in case if l.startswith("gd ")).split()[2])
+    nod6 = thr == 0 or all(sg["scaled"] <= sigs[0]["scaled"] for k, sg in sigs.items() if 0 < k < 60)
     opts = {"save_matches": i % 2 == 0, "save_prefetch": i % 4 < 2, "create_empty": i % 3 != 0,
-            "linear": [None, True, False][i % 3], "explicit_prefetch": i % 5 == 0}
+            "linear": [None, True, False][i % 3], "explicit_prefetch": i % 5 == 0,
+            "save_prefetch_csv": i % 4 in (0, 3), "distract": [None, "k", None, "md5"][(i // 2) % 4],
+            "picklist": nod6 and i % 3 == 2}
     if i % 3 == 1:
         kinds = {}
         for slot, members in dbs.items():
@@ -250,7 +254,24 @@ def gen_cli_case(rng, i):
             kinds[str(slot)] = rng.choice(ks)
         opts["kinds"] = kinds
     q = sigs[0]
-    if i % 6 == 4 and q["scaled"] > 1:
+    opts["mg_add_md5"] = i % 4 == 0
+    if mode == "cli" and i % 4 in (0, 2):
+        # a second query against the same collections, for `multigather --query q1 q2`: part of the first query
+        # plus a few hashes of the sketches (the command must not carry counters / noident over from query 1)
+        gdl = next(l for l in case if l.startswith("gd ")).split()
+        hs = dict(rng.sample(sorted(q["hashes"].items()), max(1, len(q["hashes"]) // 2)))
+        others = sorted({h for k, sg in sigs.items() if 0 < k < 60 for h in sg["hashes"]} - set(hs))
+        M = mh_for_scaled(q["scaled"])
+        for h in rng.sample(others, min(len(others), 4)):
+            if h <= M:
+                hs[h] = rng.randint(1, 4)
+        nd = len([l for l in case if l.startswith("cg ")])
+        case = case + [sig_line(71, 1001, q["scaled"], set(hs), hs if q["track"] else None)]
+        case += [f"cg {10 + d} {d} 71 {gdl[2]}" for d in range(nd)]
+        case += ["split 62 63 71 " + " ".join(str(10 + d) for d in range(nd)),
+                 f"gd 71 {gdl[2]} {gdl[3]} 63 62 " + " ".join(f"c{10 + d}" for d in range(nd))]
+        case += ["next"] * (len([k for k in sigs if 0 < k < 60]) + 2)
+    if i % 8 in (4, 7) and q["scaled"] > 1:       # (4: database finer than the query: --scaled coarser than every database)
         # `--scaled`: the file holds a finer copy of the query (scaled 1: the hashes plus some above the query's
         # threshold, which the command's downsampling must drop)
         M = mh_for_scaled(q["scaled"])
@@ -394,7 +415,34 @@ def _bits_to_float(b):
 TOL = 1e-9
 
 
+def strip_views(o):
+    """drop the adapter's ` V=<tag>` annotation (a cross-check of the adapter failed; reported by the oracle)"""
+    return " ".join(w for w in o.split(" ") if not w.startswith("V="))
+
+
+VIEW_NOTES = {
+    "counter:rejects-mutable-query:AttributeError":
+        "Index.counter_gather(query, threshold_bp) raises AttributeError ('SourmashSignature' object has no attribute "
+        "'update') for a mutable SourmashSignature; prefetch / search / best_containment / GatherDatabases accept one",
+    "gatherresultdict-after-prefetchresultdict:md5":
+        "reading GatherResult.prefetchresultdict truncates the result's md5 to 8 characters IN PLACE: a later "
+        "gatherresultdict / write() of the same result carries the short md5 (two readers of one object, order matters)",
+}
+
+
+def view_violations(case, impl, prop):
+    bad = []
+    for idx, o in enumerate(impl):
+        if " V=" in o:
+            tag = o.split(" V=", 1)[1].split()[0]
+            bad.append((idx, f"{prop}:views-disagree:{tag}",
+                        VIEW_NOTES.get(tag, f"the adapter's cross-check `{tag}` failed at op `{case[idx][:60]}`")))
+    return bad
+
+
 def same(a, b):
+    if " V=" in a:
+        a = strip_views(a)
     if a == b:
         return True
     wa, wb = a.split(" "), b.split(" ")
@@ -533,7 +581,8 @@ def d6_admitted(R, x, s, first):
 
 def oracle(case, impl):
     """C07 clauses on the implementation's observations.  -> [(op_index, signature, message)]"""
-    bad = []
+    bad = view_violations(case, impl, "C07")
+    impl = [strip_views(o) if " V=" in o else o for o in impl]
     sigs, dbs = parse_case(case)
     run = None
     for idx, (op, obs) in enumerate(zip(case, impl)):
@@ -742,6 +791,9 @@ def post_model(lines):
 def classify(case, impl, model, k):
     """signature of a correspondence disagreement"""
     op = case[k].split()[0] if k < len(case) and case[k].split() else "?"
+    if k < len(impl) and " V=" in impl[k]:
+        # the adapter's own cross-checks: two routes to the same information disagree / an earlier result changed
+        return "C07:views-disagree:" + impl[k].split(" V=", 1)[1].split()[0]
     if k < len(model) and "L=DIFF" in model[k]:
         return f"C07:corr:list-sketch-instance-differs:{op}"
     return f"C07:corr:{op}"
